@@ -31,11 +31,15 @@ pub fn run(ctx: &mut Ctx) {
     let mut metas = vec![];
     // every even size up to max_sb, then (quick tier) a sample of larger ones: 5 .. 18 blocks per shard
     let mut all_sizes: Vec<usize> = (1..=max_sb / 2).map(|h| 2 * h).collect();
-    if !ctx.thorough() {
+    {
         for _ in 0..3 { all_sizes.extend_from_slice(&MULTI_BLOCK_SIZES); }
         all_sizes.extend_from_slice(&[256 + 64, 512 + 2, 640, 832 + 30]);
+        // block counts around and ON multiples of 64 (4 KiB), with and without a partial last block
         all_sizes.extend_from_slice(&LONG_SIZES);
         all_sizes.extend_from_slice(&LONG_SIZES);
+        if ctx.thorough() {
+            for m in [1usize, 2, 3, 4] { for d in [62usize, 34, 2] { all_sizes.push(4096 * m - d); } }
+        }
     }
     for sb in all_sizes {
         for _ in 0..cfgs_per_size {
